@@ -101,8 +101,19 @@ def features(mod):
                     f.add("imperfect")
                 else:
                     f.add("perfect")
-                if li["ub"] < 0 and lp["ub"] < 0:
-                    f.add("both-ub-negative")
+                # chain of loops that will all be merged into one: two negative upper bounds multiply to a positive trip count
+                neg, q, lq = int(li["ub"] < 0), p, lp
+                while True:
+                    neg += int(lq["ub"] < 0)
+                    qq = q.parent_op()
+                    if not isinstance(qq, scf.ForOp):
+                        break
+                    lqq = _loop(qq)
+                    if not (lq["norm"] and lqq["norm"]):
+                        break
+                    q, lq = qq, lqq
+                if neg >= 2:
+                    f.add("negative-ubs-in-merge-chain")
     return f
 
 
@@ -245,8 +256,8 @@ def sig_trace(pname, feats, mis):
             return "canon-for:change-step:ub-not-multiple-of-step:trace-differs"
         if "imperfect" in feats:
             return "canon-for:merge:imperfect-nest:trace-differs"
-        if "both-ub-negative" in feats:
-            return "canon-for:merge:both-ub-negative:trace-differs"
+        if "negative-ubs-in-merge-chain" in feats:
+            return "canon-for:merge:negative-upper-bounds:trace-differs"
         return "canon-for:trace:" + mis["kind"]
     if mis["kind"] in BOUND_KINDS:
         return "reuse-allocs:affine-min-replaced-by-bound:tagged-op-observes-the-bound"
